@@ -527,6 +527,21 @@ def template_cases(rng, limit):
             for p in pos: picks[p] = 0
             picks = [100 + t for t in picks]       # op-level interleaving (statement-level ones come from the random cases)
             cases.append({'sessOpt': [True, True], 'rows': rows, 'progs': [p0, p1], 'picks': picks})
+    # a session with two transactions: what it read (also a None) and what it flushed in the first one must still be
+    # checked by the UPDATE of the second one (`_update_dbvals_`, `rbits |= wbits` at the end of `_save_updated_`)
+    rowsN = {1: [1, -1, 1, 1, 1, 1, -1, 1], 2: [2, -1, 2, 2, 2, 2, -1, 2]}
+    for a in range(len(ATTRS)):
+        w = 0 if a != 0 else 7
+        for rw in ([rows, rowsN] if ATTRS[a][1] in NULLABLE else [rows]):
+            for p0 in ([G, rd(a), wr(w, 51), K, wr(w, 52), C], [G, rd(a), wr(w, 51), F, rd(a), K, rd(a), wr(w, 52), C]):
+                p1 = [G, wr(a, 61), C]
+                l0, l1 = len(p0), len(p1)
+                forced = [tuple(range(q)) + tuple(range(q + l1, l0 + l1)) for q in range(l0 + 1)]
+                others = [c for c in itertools.combinations(range(l0 + l1), l0) if c not in forced]
+                for pos in forced + rng.sample(others, min(len(others), max(2, limit // 4))):
+                    picks = [101] * (l0 + l1)
+                    for p in pos: picks[p] = 100
+                    cases.append({'sessOpt': [True, True], 'rows': rw, 'progs': [p0, p1], 'picks': picks})
     return cases
 
 
